@@ -173,6 +173,10 @@ func checkC01(c *ctx) {
 		}
 		// conjunction-style reading: recycled objects, half-read iterators, lookups that miss
 		if cont, err := zh.Dump(sb); err == nil {
+			if bad := zh.FlagReads(sb, cont); bad != "" {
+				c.Violation("C01 "+bad+"\nchunkMode="+fmt.Sprint(mode)+"\nbatch: "+clip(b.Sx().String()), false)
+				return
+			}
 			if bad := zh.InterleavedLookups(sb, cont); bad != "" {
 				c.Violation("C01 "+bad+"\nchunkMode="+fmt.Sprint(mode)+"\nbatch: "+clip(b.Sx().String()), false)
 				return
@@ -223,6 +227,12 @@ func checkC01(c *ctx) {
 		if bad := parseAgainst(c, sb, spec, parts); bad != "" {
 			reportBuild(c, "C01/C09 boundary batch: parsed bytes differ from the spec: "+bad, b, g.mode, parts)
 			return
+		}
+		if cont, err := zh.Dump(sb); err == nil {
+			if bad := zh.FlagReads(sb, cont); bad != "" {
+				c.Violation(fmt.Sprintf("C01 boundary batch (%d docs, term cardinalities %v, mode %d): %s", g.nd, g.cards, g.mode, bad), false)
+				return
+			}
 		}
 	}
 	if !c.Quick {
@@ -317,6 +327,59 @@ func checkC02(c *ctx) {
 			reportBuild(c, "C02/C09 parsed bytes differ from the spec: "+bad, b, mode, parts)
 			return
 		}
+	}
+	// reads that alternate between two segments on one goroutine: document k of one, then document
+	// k+1 of the other (whatever the readers keep between calls must not carry over)
+	{
+		b1 := zh.GenBatch(c.R, zh.RandOpts(c.R, 9, "p"))
+		b2 := zh.GenBatch(c.R, zh.RandOpts(c.R, 11, "q"))
+		s1, _, sp1, err1 := buildObs(c, b1, 1026)
+		s2, _, sp2, err2 := buildObs(c, b2, 3)
+		if err1 != nil || err2 != nil {
+			c.Violation(fmt.Sprintf("C02 build failed: %v %v", err1, err2), false)
+			return
+		}
+		o2, _, err := zh.PersistOpen(s2)
+		must(err)
+		defer o2.Close()
+		segs := []segment.Segment{s1, o2}
+		specs := []sx.V{sp1, sp2}
+		lens := []int{len(b1), len(b2)}
+		visit := func(w int, d uint64) string {
+			var got []sx.V
+			err := segs[w].VisitStoredFields(d, func(field string, typ byte, value []byte, pos []uint64) bool {
+				got = append(got, sx.L(sx.S(field), sx.N(uint64(typ)), sx.B(append([]byte(nil), value...)), sx.Nums(pos)))
+				return true
+			})
+			if err != nil {
+				return err.Error()
+			}
+			want := specs[w].L[pStored].L[d]
+			c2 := zh.Content{}
+			_ = c2
+			if len(got) != len(want.L) || (len(got) > 0 && !sx.Equal(got[0], want.L[0])) {
+				return fmt.Sprintf("%d values, first %v; the document has %d values, first %s", len(got), got, len(want.L), want.L[0].Pretty())
+			}
+			id, err := segs[w].DocID(d)
+			if err != nil || !sx.Equal(sx.B(id), want.L[0].L[2]) {
+				return fmt.Sprintf("DocID = %q (err %v), want %s", id, err, want.L[0].L[2].Pretty())
+			}
+			return ""
+		}
+		for k := 0; k+1 < lens[0] && k+1 < lens[1]; k++ {
+			for _, ord := range [][2]int{{0, 1}, {1, 0}} {
+				if bad := visit(ord[0], uint64(k)); bad != "" {
+					c.Violation(fmt.Sprintf("C02 alternating reads of two segments: document %d of segment %d: %s", k, ord[0], bad), false)
+					return
+				}
+				if bad := visit(ord[1], uint64(k+1)); bad != "" {
+					c.Violation(fmt.Sprintf("C02 alternating reads of two segments on one goroutine: after document %d of segment %d, document %d of segment %d: %s", k, ord[0], k+1, ord[1], bad), false)
+					return
+				}
+			}
+			c.Count("alternating_segment_reads")
+		}
+		c.Case("alternating-segments", true)
 	}
 	// the two per-document lengths (meta, data) cross the 2-byte / 3-byte varint boundary 16384:
 	// documents whose stored value has 16384-12 .. 16384+3 incompressible bytes, and documents with
